@@ -153,7 +153,7 @@ impl Driver {
             let info = ReceivedInfo::new(source.parse().unwrap(), transport);
             match server.handle_message(&msg, info, buf) { Response::Single(n) => Some(n), Response::None => None }
         }));
-        let n = match r { Ok(n) => n?, Err(_) => fail("Server::handle_message panicked", &(req.what, source), &"panic", &"a response or none") };
+        let n = match r { Ok(n) => n?, Err(_) => fail("[C26][C27] Server::handle_message panicked", &(req.what, source), &"panic", &"a response or none") };
         let b = &self.buf[..n];
         let be = |i: usize| u16::from_be_bytes([b[i], b[i + 1]]);
         // extended RCODE: upper 8 bits in the first octet of the TTL of the OPT record, if there is one
@@ -199,7 +199,7 @@ fn main() {
     let big_server = d.server((u32::MAX, u32::MAX, u32::MAX, 1), 0, 24, 56);
     d.send(&big_server, &reqs[0], "10.9.9.9");
     let after_fill = Instant::now();
-    if !first { fail("the first response of a stream was withheld", &reqs[0].what, &"not answered", &"answered"); }
+    if !first { fail("[C26][C27] the first response of a stream was withheld", &reqs[0].what, &"not answered", &"answered"); }
     let idle_usable = !second && after_fill - before_fill < Duration::from_millis(300);
 
     // ---- C27: pairs
@@ -210,8 +210,8 @@ fn main() {
             let mut unexpected: Option<bool> = None;          // Some(share) = the outcome contradicted `share` on every attempt
             for _attempt in 0..3 {
                 let server = d.server((1, 1, 1, 1), 0, v4_len, v6_len);
-                let Some(a1) = d.send(&server, r1, s1) else { fail("the first response of a fresh server was withheld", &input, &"not answered", &"answered") };
-                if category_of(a1.rcode) != r1.category { fail("set-up: the response has an RCODE of another category than the scenario intends", &input, &a1.rcode, &r1.category); }
+                let Some(a1) = d.send(&server, r1, s1) else { fail("[C26][C27] the first response of a fresh server was withheld", &input, &"not answered", &"answered") };
+                if category_of(a1.rcode) != r1.category { fail("[C27] set-up: the response has an RCODE of another category than the scenario intends", &input, &a1.rcode, &r1.category); }
                 let second_answered = d.send(&server, r2, s2).is_some();
                 let share = r1.limited_kind() && r2.limited_kind() && same_prefix(s1, s2, v4_len, v6_len) && r1.category == r2.category
                     && (r1.category != Cat3::NoError || r1.stream_name == r2.stream_name);
@@ -219,8 +219,8 @@ fn main() {
                 unexpected = Some(share);
             }
             match unexpected {
-                Some(true) => fail("two responses of the same stream were both sent (limit: one per window)", &input, &"second answered", &"second withheld"),
-                Some(false) => fail("a response was withheld although the previous one belongs to another stream (or is never limited)", &input, &"second withheld", &"second answered"),
+                Some(true) => fail("[C27] two responses of the same stream were both sent (limit: one per window)", &input, &"second answered", &"second withheld"),
+                Some(false) => fail("[C27] a response was withheld although the previous one belongs to another stream (or is never limited)", &input, &"second withheld", &"second answered"),
                 None => (),
             }
         }}}}
@@ -253,7 +253,7 @@ fn main() {
                     };
                     if bad.is_none() { break; }
                 }
-                if let Some(b) = bad { fail(&b, &input, &"see above", &"slip 0: dropped; slip 1: sent with TC and no records (OPT allowed); TCP and non-QUERY untouched"); }
+                if let Some(b) = bad { fail(&format!("[C26] {b}"), &input, &"see above", &"slip 0: dropped; slip 1: sent with TC and no records (OPT allowed); TCP and non-QUERY untouched"); }
             }
         }
     }
@@ -270,7 +270,7 @@ fn main() {
                 got = (0..limit + 4).filter(|_| d.send(&server, &reqs[ri], "10.0.0.1").is_some()).count();
                 if got == limit { break; }
             }
-            if got != limit { fail("a burst on one stream did not get exactly rate*window responses", &input, &got, &limit); }
+            if got != limit { fail("[C26] a burst on one stream did not get exactly rate*window responses", &input, &got, &limit); }
         }
     }
 
@@ -284,12 +284,12 @@ fn main() {
         let got = (0..5).filter(|_| d.send(&idle_server, &reqs[0], "10.9.9.9").is_some()).count();
         let burst_end = Instant::now();
         cases += 1;
-        if d.send(&big_server, &reqs[0], "10.9.9.9").is_none() { fail("a response far below the limit (rate 2^32-1 per second) was withheld after an idle period", &"fill, idle 2.1 s, one more response", &"withheld", &"answered"); }
+        if d.send(&big_server, &reqs[0], "10.9.9.9").is_none() { fail("[C26] a response far below the limit (rate 2^32-1 per second) was withheld after an idle period", &"fill, idle 2.1 s, one more response", &"withheld", &"answered"); }
         // judged only if the whole burst lies inside [fill + 2 s, fill + 3 s): no further whole second can have passed
         if burst_start >= after_fill + Duration::from_secs(2) && burst_end < before_fill + Duration::from_millis(2900) {
             cases += 1;
             idle_checked = true;
-            if got != 1 { fail("after an idle period of 2.1 s (window 1 s, rate 1) a burst of 5 did not get exactly 1 response", &"fill, idle 2.1 s, burst of 5 on the same stream", &got, &1); }
+            if got != 1 { fail("[C26] after an idle period of 2.1 s (window 1 s, rate 1) a burst of 5 did not get exactly 1 response", &"fill, idle 2.1 s, burst of 5 on the same stream", &got, &1); }
         }
     }
     done(cases, &format!("16 request kinds x 16 x 8 sources x 8 x 3 prefix configurations (ordered pairs, fresh server each); slip 0/1 x 16 kinds x 2 sources; bursts for 4 rate/window choices x 4 streams; one idle period of 2.1 s (rate 1 and rate 2^32-1){}",
